@@ -28,13 +28,14 @@ pub fn codec_magnitudes<CS: Suite>(env: &Env, n: &Integer) where CL03<CS>: Schem
             // beyond the nominal sizes (le / ls BITS) up to what the positional codec can hold (le / ls OCTETS): objects that still verify
             // exist there (s + k * p'q' for any k), and whatever the codec does with them it must not hand back a DIFFERENT object
             let es = [Integer::from(1), pow2(CS::le - 1) + 1u32, pow2(CS::le) - 1u32, pow2(CS::le) + 1u32, pow2(CS::le + 7) + 3u32, pow2(CS::le + 8) + 3u32, pow2(2 * CS::le) + 5u32, pow2(8 * CS::le) - 1u32];
-            let ss = [Integer::from(0), Integer::from(1), pow2(CS::ls) - 1u32, pow2(CS::ls) + 1u32, pow2(CS::ls + 7) + 3u32, pow2(CS::ls + 8) + 3u32, pow2(CS::ls + 90) + 7u32, pow2(2 * CS::ls) + 5u32, pow2(8 * CS::ls) - 1u32];
+            let ss = [Integer::from(0), Integer::from(1), pow2(CS::ls) - 1u32, pow2(CS::ls) + 1u32, pow2(CS::ls + 1) - 1u32, pow2(CS::ls + 7) + 3u32, pow2(CS::ls + 8) + 3u32, pow2(CS::ls + 90) + 7u32, pow2(2 * CS::ls) + 5u32, pow2(8 * CS::ls) - 1u32];
             let vs = [Integer::from(1), Integer::from(255), Integer::from(256), pow2(bits - 9), pow2(bits - 8) - 1u32, pow2(bits - 8), pow2(bits - 16) + 5u32, n.clone() - 1u32];
             for e in &es { for s_ in &ss { for v in &vs {
                 env.ctx.state(&[id.as_bytes(), e.to_string_radix(16).as_bytes(), s_.to_string_radix(16).as_bytes(), v.to_string_radix(16).as_bytes()]); env.ctx.step();
                 if let Some(sig) = mk_sig::<CS>(e, s_, v) {
                     let rt = mccore::guard_val(|| Sig::<CS>::from_bytes(&sig.to_bytes()));
-                    let oversize = e.significant_bits() > CS::le || s_.significant_bits() > CS::ls;
+                    // s of ls + 1 bits is NOT oversize: unblind_sign hands out s = r + r', which carries into bit ls when r' has its top bits set
+                    let oversize = e.significant_bits() > CS::le || s_.significant_bits() > CS::ls + 1;
                     // oversize components: a loud refusal (panic) is tolerated, a silently different object is not
                     if oversize && matches!(rt, O::Panic(_)) { env.ctx.class("codec-magnitudes:oversize-refused"); }
                     else if rt.clone().ok().as_ref() != Some(&sig) { env.ctx.violation(&format!("{}:roundtrip:bytes:magnitudes", env.ctx.prop), &format!("from_bytes(to_bytes(sig)) != sig for a signature object with e of {} bits, s of {} bits, v of {} bits: {}", e.significant_bits(), s_.significant_bits(), v.significant_bits(), rt.kind()), env.case(&id, json!({"suite": CS::NAME, "e_bits": e.significant_bits(), "s_bits": s_.significant_bits(), "v_bits": v.significant_bits()}))); }
